@@ -3,6 +3,7 @@
 -/
 import NakenVerif.Msp430.SimProofs
 import NakenVerif.Props.C14
+import NakenVerif.Props.C15Sim
 
 namespace NakenVerif.C15
 open NakenVerif.Msp430.Sim NakenVerif.Msp430.SimArch NakenVerif.Msp430.SimProofs
